@@ -68,3 +68,21 @@ Lemma optN_eqb_refl : forall o, optN_eqb o o = true.
 Proof. destruct o; simpl; auto using N.eqb_refl. Qed.
 Lemma optN_eqb_eq : forall a b, optN_eqb a b = true -> a = b.
 Proof. destruct a, b; simpl; intros; try discriminate; auto. f_equal; apply N.eqb_eq; auto. Qed.
+
+(* --- NoDup over concatenations -------------------------------------------------------------------------- *)
+Lemma nodup_app : forall A (l1 l2 : list A),
+  NoDup l1 -> NoDup l2 -> (forall x, In x l1 -> In x l2 -> False) -> NoDup (l1 ++ l2).
+Proof.
+  induction l1; simpl; intros; auto. inv H. constructor.
+  - rewrite in_app_iff. intros [I|I]; auto. eapply H1; eauto.
+  - apply IHl1; auto. intros; eapply H1; eauto.
+Qed.
+Lemma nodup_app_inv : forall A (l1 l2 : list A),
+  NoDup (l1 ++ l2) -> NoDup l1 /\ NoDup l2 /\ (forall x, In x l1 -> In x l2 -> False).
+Proof.
+  induction l1; simpl; intros.
+  - repeat split; auto. constructor.
+  - inv H. destruct (IHl1 _ H3) as (A1 & A2 & A3). repeat split; auto.
+    + constructor; auto. intro I; apply H2. apply in_app_iff; auto.
+    + intros x [E|I] J; subst. apply H2; apply in_app_iff; auto. eapply A3; eauto.
+Qed.
